@@ -11,6 +11,7 @@ import (
 	"fmt"
 	"path/filepath"
 	"strconv"
+	"sync"
 
 	"github.com/cnotch/ipchub/av/format/mpegts"
 	"github.com/cnotch/ipchub/utils/murmur"
@@ -25,9 +26,10 @@ const hlsAacDelay = 100
 
 // SegmentGenerator generate the HLS ts segment.
 type SegmentGenerator struct {
-	playlist    *Playlist // 播放列表
-	path        string    // 流路径
-	hlsFragment int       // 每个片段长度
+	mu          sync.Mutex // Close(流关闭)与 WriteMpegtsFrame(ts muxer routine)互斥
+	playlist    *Playlist  // 播放列表
+	path        string     // 流路径
+	hlsFragment int        // 每个片段长度
 
 	memory      bool   // 使用内存存储缓存到硬盘
 	segmentPath string // 缓存文件路径
@@ -95,6 +97,9 @@ func (sg *SegmentGenerator) segmentOpen(segmentStartDts int64) (err error) {
 
 // WriteMpegtsFrame implements mpegts.FrameWriter
 func (sg *SegmentGenerator) WriteMpegtsFrame(frame *mpegts.Frame) (err error) {
+	sg.mu.Lock()
+	defer sg.mu.Unlock()
+
 	// if current is NULL, segment is not open, ignore the flush event.
 	if nil == sg.current {
 		return
@@ -228,6 +233,9 @@ func (sg *SegmentGenerator) isSegmentAbsolutelyOverflow() bool {
 
 // Close .
 func (sg *SegmentGenerator) Close() error {
+	sg.mu.Lock()
+	defer sg.mu.Unlock()
+
 	if nil == sg.current {
 		return nil
 	}
